@@ -2,3 +2,4 @@ import LeraxProofs.C01
 import LeraxProofs.C03
 import LeraxProofs.C13
 import LeraxProofs.C06
+import LeraxProofs.C09
